@@ -3,3 +3,5 @@ import BufrProofs.Expand
 import BufrProofs.Ops
 import BufrProofs.Ieee
 import BufrProofs.Tables
+import BufrProofs.Frame
+import BufrProofs.FrameRead
